@@ -193,7 +193,7 @@ pub fn part_strategy() -> impl Strategy<Value = Part> {
 
 const BLOCK: u64 = 5000;
 fn cases(tier: Tier) -> u64 {
-    tier.pick(100_000, 2_000_000)
+    tier.pick(400_000, 2_000_000)
 }
 
 fn case_json(parts: &[Part]) -> Value {
